@@ -109,7 +109,8 @@ class Runner:
     def note_half_turns(self, rec, th):
         """setArbitraryHome goes through rotation-vector arithmetic (logarithms of the current tool pose, of the
         requested pose, of their relative rotation and of the new home pose).  If one of these rotations is
-        within 3e-4 of a half turn the library's logarithm is too inaccurate for the 1e-7 comparison: such
+        within 1e-3 of a half turn the library's logarithm (error ~2e-15/(pi-angle)^2, times the lever arm of the
+        tool) is too inaccurate for the 1e-7 comparison (measured: 2e-7 at pi-3.3e-4 on the 6R arm): such
         histories are classified under the known finding log_near_pi."""
         pre = self._cur_state
         j = tup(pre["j"])
@@ -121,7 +122,7 @@ class Runner:
         home = self.bases[pre["b"]] @ self.tool_local(pre["t"])
         new_home = home @ rf.trans_inv(E) @ N
         for m in (E, N, rf.trans_inv(E) @ N, home, new_home):
-            if rf.rot_angle(m[:3, :3]) > PI - 3e-4:
+            if rf.rot_angle(m[:3, :3]) > PI - 1e-3:
                 self.tainted = True
 
     def do_ik(self, i, rec):
@@ -282,6 +283,23 @@ class Runner:
             Fb = np.asarray(Fb.getData() if hasattr(Fb, "getData") else Fb, dtype=float).reshape(-1)
             if float(np.abs(Fb - F.reshape(-1)).max()) > 1e-6 * max(1.0, float(np.abs(F).max())):
                 return ("S2_staticForcesInv(staticForces(F))=F", F.reshape(-1).tolist(), Fb.tolist())
+        # J4/S4: a query with an explicit joint vector answers for that vector whatever state the arm is in: repeat the
+        # queries with the arm parked at a different joint vector
+        other = zoo.clamp(sp, np.array([rng.uniform(lo, hi) for lo, hi in zip(np.maximum(sp["mins"], -PI), np.minimum(sp["maxs"], PI))]))
+        with contextlib.redirect_stdout(io.StringIO()):
+            arm.FK(other.copy())
+            again = [("jacobian", Js, np.asarray(arm.jacobian(thc.copy()), dtype=float))]
+            arm.FK(other.copy())
+            again.append(("jacobianBody", Jb, np.asarray(arm.jacobianBody(thc.copy()), dtype=float)))
+            arm.FK(other.copy())
+            again.append(("jacobianEETrans", Je, np.asarray(arm.jacobianEETrans(thc.copy()), dtype=float)))
+            arm.FK(other.copy())
+            again.append(("staticForces", tau, np.asarray(arm.staticForces(Wrench(F.copy()), thc.copy()), dtype=float).reshape(-1)))
+            arm.FK(other.copy())
+            again.append(("velocityAtEndEffector", V, np.asarray(arm.velocityAtEndEffector(qd.copy(), thc.copy()), dtype=float).reshape(-1)))
+        for name, at_state, parked in again:
+            if float(np.abs(np.asarray(at_state) - parked).max()) > 1e-9 * max(1.0, float(np.abs(at_state).max())):
+                return ("J4_%s(theta)_independent_of_the_stored_state" % name, np.asarray(at_state).tolist(), parked.tolist())
         with contextlib.redirect_stdout(io.StringIO()):
             arm.FK(thc.copy())
         return None
